@@ -299,8 +299,9 @@ where
 
     /// Is this message for us?
     ///
-    /// Returns `Some(Question)` if the given query uses OPCODE NOTIFY and has
-    /// a first question with a QTYPE of `SOA`, `None` otherwise.
+    /// Returns `Some(Question)` if the given message is a query (QR=0) that
+    /// uses OPCODE NOTIFY and has a first question with a QTYPE of `SOA`,
+    /// `None` otherwise.
     fn get_relevant_question(
         msg: &Message<RequestOctets>,
     ) -> Option<Question<ParsedName<RequestOctets::Range<'_>>>> {
@@ -308,7 +309,9 @@ where
         // receives Opcode::QUERY it would be more efficient to place a
         // "router" middleware in front of this middleware that routes
         // requests by Opcode to separate dedicated middleware "chains".
-        if Opcode::NOTIFY == msg.header().opcode() {
+        // RFC 1996 section 4.7: "with QTYPE=SOA and QR=0". A NOTIFY response
+        // is not ours to answer.
+        if Opcode::NOTIFY == msg.header().opcode() && !msg.header().qr() {
             if let Some(q) = msg.first_question() {
                 if q.qtype() == Rtype::SOA {
                     return Some(q);
